@@ -286,6 +286,49 @@ fn message_part(seed: u64, evals: &AtomicU64, nontrivial: &AtomicU64) -> (Vec<Vi
 
 // ───────────── codec reuse: histories of good and bad frames on ONE codec ─────────────
 
+/// Whole, well-framed messages of several payload sizes (below and above any inline-buffer threshold a codec
+/// might have) whose INNER length prefix (string / vector length) is replaced by absurd values, read through
+/// `Codec::read_message`: never a panic, never a single allocation above the 16 MiB bound.
+fn codec_hostile_inner_lengths(evals: &AtomicU64, nontrivial: &AtomicU64) -> Vec<Violation> {
+    let mut out = Vec::new();
+    let sizes = [10usize, 4000, 4097, 5000, 70_000, 1 << 20];
+    let evil: [u64; 6] = [1 << 24, (1 << 24) + 1, 1 << 28, 1 << 32, 1 << 63, u64::MAX];
+    for &n in &sizes {
+        let msgs: Vec<(&str, Message)> = vec![
+            ("Error", Message::Error { code: 5, message: "e".repeat(n) }),
+            ("Ack", Message::Ack { file_id: 3, success: false, message: Some("m".repeat(n)) }),
+        ];
+        for (mname, m) in msgs {
+            let mut frame = Vec::new();
+            if Codec::new().write_message(&mut frame, &m).is_err() {
+                machinery_error("cannot encode a valid message");
+            }
+            // the string's own length prefix: the u64 LE encoding of n, found once in the payload
+            let needle = (n as u64).to_le_bytes();
+            let hits: Vec<usize> = (12..frame.len().saturating_sub(8)).filter(|&i| frame[i..i + 8] == needle).take(2).collect();
+            let Some(&off) = hits.first() else { machinery_error(format!("length prefix of {mname}({n}) not found")) };
+            for &e in &evil {
+                let mut f = frame.clone();
+                f[off..off + 8].copy_from_slice(&e.to_le_bytes());
+                evals.fetch_add(1, Ordering::Relaxed);
+                nontrivial.fetch_add(1, Ordering::Relaxed);
+                let (res, max_single, _) = with_alloc_tracking(|| catch(std::panic::AssertUnwindSafe(|| Codec::new().read_message(&mut &f[..]).is_ok())));
+                let det = json!({"part":"codec_inner_length","message":mname,"payload":n,"declared":e.to_string()});
+                match res {
+                    Err(p) => out.push(v("panic", format!("Codec::read_message panicked on a whole {mname} frame ({n}-byte string) whose string length says {e}: {p}"), det)),
+                    Ok(true) => out.push(v("accepts_malformed", format!("Codec::read_message returned a value for a {mname} frame whose string length says {e}"), det)),
+                    Ok(false) if max_single > ALLOC_BOUND => out.push(v("alloc_bound", format!("Codec::read_message made a single allocation of {max_single} bytes on a {}-byte {mname} frame whose string length says {e}", f.len()), det)),
+                    Ok(false) => {}
+                }
+                if out.len() > 4 {
+                    return out;
+                }
+            }
+        }
+    }
+    out
+}
+
 fn codec_history_part(evals: &AtomicU64, nontrivial: &AtomicU64) -> Vec<Violation> {
     let good: Vec<Message> = vec![Message::Ping { seq: 6 }, Message::Pong { seq: 9 }, Message::Ack { file_id: 3, success: true, message: Some("ok".into()) }, Message::Error { code: 5, message: "e".repeat(5000) }];
     let frame = |m: &Message| {
@@ -655,7 +698,11 @@ fn cli_part(thorough: bool, seed: u64, evals: &AtomicU64) -> Vec<Violation> {
                 Some(1) if !err.trim().is_empty() => None,
                 Some(0) => {
                     let well_formed = if *is_sig { bincode::deserialize::<Signature>(bytes).is_ok() } else { bincode::deserialize::<Delta>(bytes).is_ok() };
-                    if well_formed {
+                    // a block size that is not one of the legal sizes must be REPORTED, whatever else the file decodes to
+                    let bad_bs = name.split_once(".block_size=").and_then(|(_, v)| v.parse::<u128>().ok()).is_some_and(|v| !(v.is_power_of_two() && (512..=65536).contains(&v)));
+                    if bad_bs {
+                        Some(v("cli_accepts_invalid_block_size", format!("`{cmdname}` exit 0 on a file whose block size field is illegal ({name})"), det))
+                    } else if well_formed {
                         None
                     } else {
                         Some(v("cli_accepts_malformed", format!("`{cmdname}` exit 0 on a file that does not decode ({name})"), det))
@@ -685,6 +732,7 @@ pub fn run(ctx: &Ctx) -> ! {
             "header" => vs.extend(header_part(&evals, &nontrivial).into_iter().filter(|x| x.detail["buf"] == d["buf"])),
             "cli" => vs.extend(cli_part(true, val["seed"].as_u64().unwrap_or(ctx.seed), &evals).into_iter().filter(|x| x.detail["name"] == d["name"])),
             "codec_history" | "codec_stream" => vs.extend(codec_history_part(&evals, &nontrivial)),
+            "codec_inner_length" => vs.extend(codec_hostile_inner_lengths(&evals, &nontrivial)),
             _ => vs.extend(message_part(val["seed"].as_u64().unwrap_or(ctx.seed), &evals, &nontrivial).0),
         }
         let mut rep = Report::new("exploration");
@@ -697,6 +745,7 @@ pub fn run(ctx: &Ctx) -> ! {
     let (mv, encodings) = message_part(ctx.seed, &evals, &nontrivial);
     violations.extend(mv.into_iter().take(10));
     violations.extend(codec_history_part(&evals, &nontrivial).into_iter().take(6));
+    violations.extend(codec_hostile_inner_lengths(&evals, &nontrivial).into_iter().take(4));
     let before = evals.load(Ordering::Relaxed);
     violations.extend(totality_part(thorough, &encodings, ctx.seed, &evals, &nontrivial).into_iter().take(20));
     let totality = evals.load(Ordering::Relaxed) - before;
